@@ -34,6 +34,7 @@
 //	unobserved      the next call is issued without waiting for the client to notice the close
 //	                (inherent TCP race; recorded, outcome not judged)
 //	literal         the schedules of the Lean theorems (`run`) against the probes of forced-parked
+//	notify-linger   the close notification end to end through the full client (notify.go)
 package main
 
 import (
@@ -77,6 +78,9 @@ type Scenario struct {
 	ClientIdleMs int    `json:"client_idle_ms"` // the client's IdleTimeout (0: one hour)
 	QueueLen     int    `json:"queue_len"`
 	Rounds       int    `json:"rounds"` // free/timely: close / call rounds
+	HasCallback  bool   `json:"has_callback,omitempty"` // notify-linger: the client registered a push callback
+	LingerMs     int    `json:"linger_ms,omitempty"`    // notify-linger: the server closes the old connection this long after the notification
+	ExtraPush    bool   `json:"extra_push,omitempty"`   // notify-linger: an ordinary push precedes the notification
 }
 
 type callResult struct {
@@ -1057,6 +1061,13 @@ func genScenarios(o *common.Opts, rng *rand.Rand) []Scenario {
 			scs = append(scs, Scenario{Kind: "notify", CloseHow: "notify", PreCalls: 1 + rng.Intn(2), DelayMs: []int{0, 50, 1200}[rng.Intn(3)]})
 			scs = append(scs, Scenario{Kind: "unobserved", CloseHow: "response", PreCalls: 1, DelayMs: 0, Rounds: 1})
 		}
+		// the close notification through the full client: without and with push callback
+		for _, cb := range []bool{false, true} {
+			for _, extra := range []bool{false, true} {
+				scs = append(scs, Scenario{Kind: "notify-linger", CloseHow: "notify-linger", HasCallback: cb, ExtraPush: extra,
+					PreCalls: 1 + rng.Intn(3), DelayMs: 50 + rng.Intn(151), LingerMs: 500 + rng.Intn(501)})
+			}
+		}
 	}
 	for i := range scs {
 		scs[i].Seed = o.Seed
@@ -1149,6 +1160,7 @@ func main() {
 
 	// run in parallel batches
 	outs := make([]outcome, len(scs))
+	nouts := make([]nOutcome, len(scs))
 	const batch = 48
 	aborted := false
 	for lo := 0; lo < len(scs) && !aborted; lo += batch {
@@ -1162,7 +1174,11 @@ func main() {
 			wg.Add(1)
 			go func(i int) {
 				defer wg.Done()
-				outs[i] = execute(scs[i])
+				if scs[i].Kind == "notify-linger" {
+					nouts[i] = executeNotify(scs[i])
+				} else {
+					outs[i] = execute(scs[i])
+				}
 			}(i)
 		}
 		go func() { wg.Wait(); close(done) }()
@@ -1185,6 +1201,9 @@ func main() {
 	var idx []int
 	for i := range outs {
 		out := &outs[i]
+		if scs[i].Kind == "notify-linger" {
+			continue
+		}
 		if out.sc.Kind == "notify" || !out.connsOK || strings.Contains(strings.Join(out.hist, " "), "E.") {
 			continue
 		}
@@ -1202,6 +1221,15 @@ func main() {
 		litLines = []string{"run tree 16 " + d14RepairedHandback, "run tree 16 " + d14RepairedDone}
 	}
 	lines = append(lines, litLines...)
+	// the close-notification scenarios as schedules of the adapter-level model
+	var nidx []int
+	for i := range scs {
+		if scs[i].Kind == "notify-linger" && nouts[i].harness == "" {
+			nidx = append(nidx, i)
+			lines = append(lines, notifyModelLine(scs[i]))
+		}
+	}
+	lines = append(lines, "notify-variant")
 	answers, err := m.Batch(lines)
 	if err != nil {
 		res.Fatal(o.Out, err)
@@ -1210,9 +1238,58 @@ func main() {
 	for j, i := range idx {
 		admitted[i] = answers[j]
 	}
-	litAnswers := answers[len(answers)-len(litLines):]
+	notifyVariant := answers[len(answers)-1]
+	nAnswers := answers[len(answers)-1-len(nidx) : len(answers)-1]
+	litAnswers := answers[len(answers)-1-len(nidx)-len(litLines) : len(answers)-1-len(nidx)]
 
+	for j, i := range nidx {
+		no := &nouts[i]
+		fs := oracleNotify(no)
+		sum := no.summary()
+		impl := notifyImplLine(no)
+		class := "notify-linger:no-callback"
+		if no.sc.HasCallback {
+			class = "notify-linger:callback"
+		}
+		if no.sc.ExtraPush {
+			class += ":extra-push"
+		}
+		if len(fs) > 0 {
+			class += ":violating"
+		}
+		key, _ := json.Marshal(no.sc)
+		res.Count(string(key), class, true)
+		res.Sample(map[string]interface{}{"scenario": no.sc, "impl": sum})
+		ans := nAnswers[j]
+		switch {
+		case ans == common.NoModel:
+		case strings.HasPrefix(ans, "ok ") && strings.Contains(ans+" ", " "+impl+" "):
+			res.TracesValidated++
+		default:
+			res.Diverge(common.Case{Stream: "clientconn", Op: no.sc, Model: ans, Impl: impl + " | " + sum,
+				Note: "the requests did not go where the " + notifyVariant + " model of AdapterProxy.onPush sends them"})
+		}
+		for _, f := range fs {
+			res.Violate(common.Violation{Signature: f.sig, What: f.what,
+				Case: common.Case{Stream: "clientconn", Op: no.sc, Model: ans, Impl: sum}})
+		}
+		if replay {
+			fmt.Printf("scenario: %s\nonPush variant of the tree: %s\nmodel: %s\nimpl: %s | %s\n", key, notifyVariant, ans, impl, sum)
+			for _, f := range fs {
+				fmt.Printf("VIOLATED %s — %s\n", f.sig, f.what)
+			}
+		}
+	}
+	for i := range scs {
+		if scs[i].Kind == "notify-linger" && nouts[i].harness != "" {
+			res.Note("notify-linger scenario not executed: %s", nouts[i].harness)
+			res.Histogram["notify-linger:harness-problem"]++
+		}
+	}
 	for i := range outs {
+		if scs[i].Kind == "notify-linger" {
+			continue
+		}
 		out := &outs[i]
 		fs := oracle(out)
 		sum := summary(out, fs)
@@ -1285,6 +1362,9 @@ func main() {
 	if litAnswers[0] != common.NoModel {
 		for i := range outs {
 			out := &outs[i]
+			if scs[i].Kind == "notify-linger" {
+				continue
+			}
 			if out.sc.Kind != "forced-parked" {
 				continue
 			}
